@@ -113,6 +113,9 @@ func solve(o *Obl, dir string, idx int, timeout time.Duration, each bool) *Solve
 		out    string
 		file   string
 	}
+	if o.Expect == "sat" && timeout > 6*time.Second {
+		timeout = 6 * time.Second // vacuity probes: anything but `unsat` is fine, do not wait long
+	}
 	ctx, cancel := context.WithTimeout(context.Background(), timeout)
 	defer cancel()
 	ch := make(chan ans, len(solvers))
